@@ -5,6 +5,7 @@ CONSTANTS
   GetW = 17
   LateT = 256
   Fixed_F20 = TRUE
+  Fixed_F26 = TRUE
   NackHorizon = 45
   Caps = {1, 2, 3, 4, 8}
   Ids = {1, 2}
